@@ -281,6 +281,10 @@ def inline_selected(facts, cands):
             todo_callers = [site_spec[0]]
         for caller_k in todo_callers:
             _inline_into(nf, owned, k, caller_k, done)
+        # every call site of the helper has received a copy: the function itself is dead in the normal form (leaving it would show
+        # rules a second, unused candidate for the role its code now plays inside the caller)
+        if nf.mir[k].path in done:
+            nf.mir.pop(k, None)
     nf.inlined = done
     return nf, done
 
